@@ -1,5 +1,6 @@
 import Hifi.Lemmas.EpochOrd
 import Hifi.Model.Views
+import Hifi.Model.ViewsDyn
 import Hifi.Lemmas.ViewsFloat
 import Hifi.Gen.ViewsConsts
 /-
@@ -200,5 +201,33 @@ example : accF .jdeTaiDays ⟨1, 0⟩ = some (F64.ofBits 0x4142b42cc0000000) ∧
     toRat (F64.ofBits 0x4142b42cc0000000) = 4903091 / 2 := by decide +kernel   -- 2000-01-01T00:00 TAI is JD 2451545.5
 example : (F64.ofBits 0x40e92a8000000000).wf = true ∧ toRat (F64.ofBits 0x40e92a8000000000) = ((51540 : Int) : Rat) ∧
     absR (toRat (F64.ofBits 0x40e92a8000000000)) ≤ pow2 23 := by decide +kernel
+
+
+/-! ### the Julian-date views in ET / TDB (Model/ViewsDyn.lean) -/
+
+/-- the prime-epoch offset of ET and TDB is J2000 (3 155 716 800 s after 1900-01-01 00:00), canonical -/
+theorem et_prime_offset : Dyn.etPrimeOffset.Canon ∧ Dyn.etPrimeOffset.val = 3155716800 * 1000000000 := by
+  unfold Dur.Canon Dyn.etPrimeOffset; simp only [NPC_eq]; decide
+
+/-- **`to_jde_et_duration` / `to_jde_tdb_duration`** of a count `x` in ET / TDB (for an epoch HELD in that scale: its own
+    elapsed time, no conversion): exactly `x + 2 415 020.5 days + J2000`, canonical — in particular across every century
+    of the result (a seeded change carried the century of this sum with `>` for `>=`).  Every canonical count at least
+    4 centuries above the lower bound and 71 centuries below the upper one. -/
+theorem jde_dyn_view_exact (x : Dur) (hx : x.Canon) (hs : Safe x.val) (hjd : x.val ≤ DMAX - 71 * NPCs) :
+    (toJdeDyn x).Canon ∧ (toJdeDyn x).val = x.val + 2415020 * DAY + DAY / 2 + 3155716800 * 1000000000 := by
+  obtain ⟨_, _, c3, _, _⟩ := constants_canonical
+  obtain ⟨v1, v2, v3, _⟩ := constants_pinned
+  obtain ⟨pc, pv⟩ := et_prime_offset
+  unfold Safe DMIN DMAX at hs; simp only [NPCs_eq] at hs
+  unfold DMAX at hjd; simp only [NPCs_eq] at hjd
+  have hj : jdeJ1900.val = 2415020 * DAY + DAY / 2 := by rw [v3, v1, v2]; omega
+  have e1 := add_val x jdeJ1900 hx c3 (by unfold DMIN DMAX; simp only [NPCs_eq]; omega)
+  have e2 := add_val (Dur.add x jdeJ1900) Dyn.etPrimeOffset e1.1 pc
+    (by unfold DMIN DMAX; simp only [NPCs_eq]; have h12 := e1.2; omega)
+  unfold toJdeDyn
+  exact ⟨e2.1, by rw [e2.2, e1.2, hj, pv]; omega⟩
+
+/-- the result-on-a-century instant of the seeded change: ET count 32 155 days gives JD = 68 centuries exactly -/
+example : toJdeDyn ⟨0, 32155 * 86400000000000⟩ = ⟨68, 0⟩ := by decide +kernel
 
 end Hifi.C17
